@@ -5,10 +5,11 @@
 -/
 import Irc.InvProofs.Defs
 
-namespace Irc
+namespace Irc.Tear
 
 /-! ### general `Map` / list lemmas -/
 namespace Map
+open Irc.Map
 variable {α : Type}
 
 theorem keys_cons (k : Str) (v : α) (m : Map α) : keys ((k, v) :: m) = k :: keys m := rfl
@@ -19,7 +20,7 @@ theorem keys_insert_of_mem (k : Str) (v : α) (m : Map α) (h : k ∈ keys m) :
   | nil => simp [keys] at h
   | cons p m ih =>
     obtain ⟨k', v'⟩ := p
-    simp only [insert]
+    simp only [Map.insert]
     split
     · rename_i hk; subst hk; rfl
     · rename_i hk
@@ -39,7 +40,7 @@ theorem keys_insert_of_not_mem (k : Str) (v : α) (m : Map α) (h : k ∉ keys m
     rw [keys_cons] at h
     have hk : ¬ k' = k := fun e => h (by rw [e]; exact List.mem_cons_self ..)
     have h' : k ∉ keys m := fun e => h (List.mem_cons_of_mem _ e)
-    simp only [insert, hk, ↓reduceIte]
+    simp only [Map.insert, hk, ↓reduceIte]
     rw [keys_cons, keys_cons, ih h']; rfl
 
 theorem nodup_keys_insert (k : Str) (v : α) (m : Map α) (h : (keys m).Nodup) :
@@ -66,7 +67,7 @@ theorem modify_of_lookup_none (k : Str) (f : α → α) (m : Map α) (h : lookup
     by_cases hk : k' = k
     · simp [hk] at h
     · simp only [hk, ↓reduceIte] at h
-      simp only [modify, hk, ↓reduceIte, ih h]
+      simp only [Map.modify, hk, ↓reduceIte, ih h]
 
 theorem mem_of_lookup {k : Str} {v : α} {m : Map α} (h : lookup k m = some v) : (k, v) ∈ m := by
   induction m with
@@ -85,7 +86,7 @@ theorem length_erase_le (k : Str) (m : Map α) : (erase k m).length ≤ m.length
   | nil => exact Nat.le_refl _
   | cons p m ih =>
     obtain ⟨k', v'⟩ := p
-    simp only [erase]
+    simp only [Map.erase]
     split
     · exact Nat.le_succ_of_le ih
     · simp only [List.length_cons]; omega
@@ -98,7 +99,7 @@ theorem erase_of_not_mem_keys (k : Str) (m : Map α) (h : k ∉ keys m) : erase 
     rw [keys_cons] at h
     have hk : ¬ k' = k := fun e => h (by rw [e]; exact List.mem_cons_self ..)
     have h' : k ∉ keys m := fun e => h (List.mem_cons_of_mem _ e)
-    simp only [erase, hk, ↓reduceIte, ih h']
+    simp only [Map.erase, hk, ↓reduceIte, ih h']
 
 /-- counting under `erase` when keys are unique -/
 theorem filter_length_erase (p : Str × α → Bool) (k : Str) (v : α) (m : Map α)
@@ -115,11 +116,11 @@ theorem filter_length_erase (p : Str × α → Bool) (k : Str) (v : α) (m : Map
       simp only [↓reduceIte, Option.some.injEq] at h
       subst h
       have : k' ∉ keys m := (List.nodup_cons.mp hn).1
-      simp only [erase, ↓reduceIte, erase_of_not_mem_keys _ _ this, List.filter_cons]
+      simp only [Map.erase, ↓reduceIte, erase_of_not_mem_keys _ _ this, List.filter_cons]
       split <;> simp
     · simp only [hk, ↓reduceIte] at h
       have ih' := ih (List.nodup_cons.mp hn).2 h
-      simp only [erase, hk, ↓reduceIte, List.filter_cons]
+      simp only [Map.erase, hk, ↓reduceIte, List.filter_cons]
       split
       · simp only [List.length_cons]; omega
       · exact ih'
@@ -189,7 +190,7 @@ structure InvData (w : World) : Prop where
   wallopsSet : ∀ n, KSet.mem n w.wallops = true ↔ ∃ u, Map.lookup n w.users = some u ∧ u.modes.wallops = true
   maxUsers : w.users.length ≤ w.maxUsers
 
-theorem InvCore.toData {w : World} (h : InvCore w) : InvData w :=
+theorem toData {w : World} (h : InvCore w) : InvData w :=
   ⟨h.noPanic, h.usersNodup, h.chansNodup, h.membersNodup, h.userChansNodup, h.memberSym, h.memberIsUser,
    h.rankMirror, h.noEmptyAdHoc, h.invisibleCount, h.operatorsCount, h.wallopsSet, h.maxUsers⟩
 
@@ -200,7 +201,7 @@ theorem InvData.conns_irrel {w : World} (d : InvData w) (cs : List Conn) (k : Na
    d.rankMirror, d.noEmptyAdHoc, d.invisibleCount, d.operatorsCount, d.wallopsSet, d.maxUsers⟩
 
 /-- assemble `InvCore` from `InvData` and the connection clauses -/
-theorem InvCore.ofData {w : World} (d : InvData w)
+theorem ofData {w : World} (d : InvData w)
     (connsNodup : (w.conns.map (·.id)).Nodup)
     (authOwns : ∀ cn, cn ∈ w.conns → cn.authenticated = true →
       ∃ n u, cn.nick = some n ∧ Map.lookup n w.users = some u ∧ u.owner = cn.id)
@@ -221,7 +222,7 @@ theorem InvCore.ofData {w : World} (d : InvData w)
 /-! ### removing a user from one channel -/
 
 /-- the channel `C` with `n` taken out (member entry and the five rank lists) -/
-def Channel.without (C : Channel) (n : Str) : Channel :=
+def chanWithout (C : Channel) (n : Str) : Channel :=
   { C with
     users := Map.erase n C.users
     modes := { C.modes with operators := KSet.erase n C.modes.operators
@@ -233,11 +234,11 @@ def Channel.without (C : Channel) (n : Str) : Channel :=
 /-- what remains of a channel when member `n` leaves: nothing if it becomes empty and is not
     preconfigured -/
 def chanDrop (n : Str) (C : Channel) : Option Channel :=
-  if (C.without n).users.isEmpty && !C.preconfigured then none else some (C.without n)
+  if ((chanWithout C n)).users.isEmpty && !C.preconfigured then none else some ((chanWithout C n))
 
-theorem Channel.removeUser_of_mem (C : Channel) (n : Str) (h : Map.contains n C.users = true) :
-    C.removeUser n = some (C.without n) := by
-  simp [Channel.removeUser, h, Channel.without]
+theorem removeUser_of_mem (C : Channel) (n : Str) (h : Map.contains n C.users = true) :
+    C.removeUser n = some ((chanWithout C n)) := by
+  simp [Channel.removeUser, h, chanWithout]
 
 def chansAfterDrop (chn n : Str) (C : Channel) (chs : Map Channel) : Map Channel :=
   match chanDrop n C with
@@ -261,8 +262,8 @@ theorem removeUserFromChannel_eq (w : World) (chn n : Str) (C : Channel)
     (hu : Map.lookup n w.users = none) :
     w.removeUserFromChannel chn n = { w with channels := chansAfterDrop chn n C w.channels } := by
   unfold World.removeUserFromChannel chansAfterDrop chanDrop
-  simp only [hC, Channel.removeUser_of_mem _ _ hn]
-  have hp : (C.without n).preconfigured = C.preconfigured := rfl
+  simp only [hC, removeUser_of_mem _ _ hn]
+  have hp : ((chanWithout C n)).preconfigured = C.preconfigured := rfl
   rw [hp]
   split <;> simp [Map.modify_of_lookup_none _ _ _ hu]
 
@@ -383,7 +384,7 @@ theorem Map.lookup_erase_some {α : Type} {k k' : Str} {m : Map α} {v : α} :
 
 theorem chanAfterRemove_some {n : Str} {C C' : Channel} (h : chanAfterRemove n C = some C') :
     (Map.contains n C.users = false ∧ C' = C) ∨
-    (Map.contains n C.users = true ∧ C' = C.without n ∧ ((C.without n).users = [] → C.preconfigured = true)) := by
+    (Map.contains n C.users = true ∧ C' = (chanWithout C n) ∧ (((chanWithout C n)).users = [] → C.preconfigured = true)) := by
   unfold chanAfterRemove at h
   cases hc : Map.contains n C.users with
   | false =>
@@ -409,18 +410,18 @@ theorem chanAfterRemove_of_other {n m : Str} {C : Channel} (hne : n ≠ m)
   cases hc : Map.contains n C.users with
   | false => exact ⟨C, by simp, hm⟩
   | true =>
-    have hm' : Map.contains m (C.without n).users = true := by
+    have hm' : Map.contains m ((chanWithout C n)).users = true := by
       show Map.contains m (Map.erase n C.users) = true
       rw [Map.contains_erase]; simp [hne, hm]
-    refine ⟨C.without n, ?_, hm'⟩
+    refine ⟨(chanWithout C n), ?_, hm'⟩
     simp only [↓reduceIte, chanDrop]
-    have : (C.without n).users.isEmpty = false := by
-      cases hu : (C.without n).users with
+    have : ((chanWithout C n)).users.isEmpty = false := by
+      cases hu : ((chanWithout C n)).users with
       | nil => rw [hu] at hm'; simp [Map.contains] at hm'
       | cons a l => rfl
     simp [this]
 
-theorem rankMirror_without {C : Channel} (h : RankMirror C) (n : Str) : RankMirror (C.without n) := by
+theorem rankMirror_without {C : Channel} (h : RankMirror C) (n : Str) : RankMirror ((chanWithout C n)) := by
   have key : ∀ (lst : KSet) (flag : ChanUserModes → Bool),
       (∀ k, KSet.mem k lst = true ↔ ∃ m, Map.lookup k C.users = some m ∧ flag m = true) →
       ∀ k, KSet.mem k (KSet.erase n lst) = true ↔
@@ -518,4 +519,184 @@ theorem invData_removeUser {w : World} (d : InvData w) {n : Str} {u : User}
       exact d.wallopsSet m
   · exact Nat.le_trans (Map.length_erase_le _ _) d.maxUsers
 
-end Irc
+/-! ### `removeUserFromChannel` for a user that is still registered (PART / KICK shape) -/
+
+theorem Map.length_modify {α : Type} (k : Str) (f : α → α) (m : Map α) :
+    (Map.modify k f m).length = m.length := by
+  induction m with
+  | nil => rfl
+  | cons p m ih =>
+    obtain ⟨k', v'⟩ := p
+    simp only [Map.modify]
+    split <;> simp [ih]
+
+theorem Map.filter_length_modify {α : Type} (p : Str × α → Bool) (k : Str) (f : α → α) (m : Map α)
+    (hp : ∀ v, p (k, f v) = p (k, v)) :
+    ((Map.modify k f m).filter p).length = (m.filter p).length := by
+  induction m with
+  | nil => rfl
+  | cons q m ih =>
+    obtain ⟨k', v'⟩ := q
+    simp only [Map.modify]
+    split
+    · rename_i e; subst e
+      simp only [List.filter_cons, hp]
+      split <;> simp
+    · simp only [List.filter_cons]
+      split <;> simp [ih]
+
+theorem removeUserFromChannel_eq' (w : World) (chn n : Str) (C : Channel)
+    (hC : Map.lookup chn w.channels = some C) (hn : Map.contains n C.users = true) :
+    w.removeUserFromChannel chn n =
+      { w with channels := chansAfterDrop chn n C w.channels
+               users := Map.modify n (fun u => { u with channels := KSet.erase chn u.channels }) w.users } := by
+  unfold World.removeUserFromChannel chansAfterDrop chanDrop
+  simp only [hC, removeUser_of_mem _ _ hn]
+  have hp : ((chanWithout C n)).preconfigured = C.preconfigured := rfl
+  rw [hp]
+  split <;> simp
+
+theorem chanDrop_some {n : Str} {C C' : Channel} (h : chanDrop n C = some C') :
+    C' = (chanWithout C n) ∧ (((chanWithout C n)).users = [] → C.preconfigured = true) := by
+  unfold chanDrop at h
+  split at h
+  · simp at h
+  · rename_i hne
+    simp only [Option.some.injEq] at h
+    refine ⟨h.symm, ?_⟩
+    intro he
+    simp only [he, List.isEmpty_nil, Bool.true_and, Bool.not_eq_eq_eq_not, Bool.not_true,
+      Bool.not_eq_false] at hne
+    exact hne
+
+theorem chanDrop_of_other {n m : Str} {C : Channel} (hne : n ≠ m) (hm : Map.contains m C.users = true) :
+    chanDrop n C = some ((chanWithout C n)) ∧ Map.contains m ((chanWithout C n)).users = true := by
+  have hm' : Map.contains m ((chanWithout C n)).users = true := by
+    show Map.contains m (Map.erase n C.users) = true
+    rw [Map.contains_erase]; simp [hne, hm]
+  refine ⟨?_, hm'⟩
+  unfold chanDrop
+  have : ((chanWithout C n)).users.isEmpty = false := by
+    cases hu : ((chanWithout C n)).users with
+    | nil => rw [hu] at hm'; simp [Map.contains] at hm'
+    | cons a l => rfl
+  simp [this]
+
+/-! ### a small concrete world satisfying the invariant (for non-vacuity examples) -/
+
+/- user `a` (invisible, wallops) alone on the ad-hoc channel `#a`, owned by the authenticated connection 1;
+   connection 2 is unauthenticated (it even asked for the nick `a`, the C02 situation) -/
+def exUser : User := {
+  hostname := str "h", name := str "a", realname := str "r", source := str "a!~a@h",
+  modes := { invisible := true, wallops := true }, channels := [str "#a"],
+  history := ⟨str "a", str "h", str "r"⟩, owner := 1 }
+def exConn1 : Conn := {
+  id := 1, hostname := str "h", nick := some (str "a"), source := str "a!~a@h", authenticated := true,
+  registered := true, hasSender := false, hasQuitSender := false, hasPingSender := false }
+def exConn2 : Conn := { id := 2, hostname := str "h", nick := some (str "a"), source := str "@h" }
+def exWorld : World := {
+  users := [(str "a", exUser)],
+  channels := [(str "#a", { users := [(str "a", ChanUserModes.createdChannel)],
+                            modes := { operators := [str "a"], founders := [str "a"] } })],
+  wallops := [str "a"], invisibleCount := 1,
+  conns := [exConn1, exConn2], connsCount := 2, maxUsers := 1 }
+
+theorem exWorld_invCore : InvCore exWorld := by
+  have lu : ∀ n u, Map.lookup n exWorld.users = some u ↔ (n = str "a" ∧ u = exUser) := by
+    intro n u
+    simp only [exWorld, Map.lookup]
+    constructor
+    · intro h; split at h
+      · rename_i e; simp at h; exact ⟨e.symm, h.symm⟩
+      · simp at h
+    · rintro ⟨rfl, rfl⟩; simp
+  have lc : ∀ ch C, Map.lookup ch exWorld.channels = some C ↔ (ch = str "#a" ∧ C = { users := [(str "a", ChanUserModes.createdChannel)], modes := { operators := [str "a"], founders := [str "a"] } }) := by
+    intro n u
+    simp only [exWorld, Map.lookup]
+    constructor
+    · intro h; split at h
+      · rename_i e; simp at h; exact ⟨e.symm, h.symm⟩
+      · simp at h
+    · rintro ⟨rfl, rfl⟩; simp
+  have lm : ∀ (n : Str) (v : ChanUserModes) m, Map.lookup n [(str "a", v)] = some m ↔ (n = str "a" ∧ m = v) := by
+    intro n v m
+    simp only [Map.lookup]
+    constructor
+    · intro h; split at h
+      · rename_i e; simp at h; exact ⟨e.symm, h.symm⟩
+      · simp at h
+    · rintro ⟨rfl, rfl⟩; simp
+  have mc : ∀ y, y ∈ exWorld.conns ↔ y = exConn1 ∨ y = exConn2 := by intro y; simp [exWorld]
+  refine
+    { noPanic := rfl, usersNodup := by decide, chansNodup := by decide, connsNodup := by decide,
+      membersNodup := ?_, userChansNodup := ?_, authOwns := ?_, userOwned := ?_, memberSym := ?_,
+      memberIsUser := ?_, rankMirror := ?_, noEmptyAdHoc := ?_, invisibleCount := by decide,
+      operatorsCount := by decide, wallopsSet := ?_, maxUsers := by decide, resources := ?_, slots := rfl,
+      killedFlagged := ?_ }
+  · intro ch C h; obtain ⟨rfl, rfl⟩ := (lc ch C).mp h; decide
+  · intro n u h; obtain ⟨rfl, rfl⟩ := (lu n u).mp h; decide
+  · intro y hy ha
+    rcases (mc y).mp hy with rfl | rfl
+    · exact ⟨str "a", exUser, rfl, rfl, rfl⟩
+    · simp [exConn2] at ha
+  · intro n u h; obtain ⟨rfl, rfl⟩ := (lu n u).mp h
+    exact ⟨exConn1, (mc _).mpr (Or.inl rfl), rfl, rfl, rfl⟩
+  · intro n u ch h; obtain ⟨rfl, rfl⟩ := (lu n u).mp h
+    constructor
+    · intro hm
+      have : ch = str "#a" := List.mem_singleton.mp ((KSet.mem_iff _ _).mp hm)
+      subst this
+      exact ⟨_, rfl, by decide⟩
+    · rintro ⟨C, hC, _⟩
+      obtain ⟨rfl, rfl⟩ := (lc ch C).mp hC
+      decide
+  · intro ch C n h hc; obtain ⟨rfl, rfl⟩ := (lc ch C).mp h
+    obtain ⟨m, hm⟩ := (Map.contains_iff _ _).mp hc
+    obtain ⟨rfl, rfl⟩ := (lm n _ m).mp hm
+    decide
+  · intro ch C h; obtain ⟨rfl, rfl⟩ := (lc ch C).mp h
+    have hyes : ∀ flag : ChanUserModes → Bool, flag ChanUserModes.createdChannel = true → ∀ n,
+        KSet.mem n [str "a"] = true ↔
+          ∃ m, Map.lookup n [(str "a", ChanUserModes.createdChannel)] = some m ∧ flag m = true := by
+      intro flag hf n
+      rw [KSet.mem_iff, List.mem_singleton]
+      constructor
+      · rintro rfl; exact ⟨_, rfl, hf⟩
+      · rintro ⟨m, hm, _⟩; exact ((lm n _ m).mp hm).1
+    have hno : ∀ flag : ChanUserModes → Bool, flag ChanUserModes.createdChannel = false → ∀ n,
+        KSet.mem n [] = true ↔
+          ∃ m, Map.lookup n [(str "a", ChanUserModes.createdChannel)] = some m ∧ flag m = true := by
+      intro flag hf n
+      constructor
+      · intro h; simp [KSet.mem] at h
+      · rintro ⟨m, hm, hfm⟩
+        obtain ⟨_, rfl⟩ := (lm n _ m).mp hm
+        rw [hf] at hfm; simp at hfm
+    exact ⟨hyes _ rfl, hno _ rfl, hyes _ rfl, hno _ rfl, hno _ rfl⟩
+  · intro ch C h he; obtain ⟨rfl, rfl⟩ := (lc ch C).mp h; simp at he
+  · intro n
+    show KSet.mem n [str "a"] = true ↔ _
+    rw [KSet.mem_iff, List.mem_singleton]
+    constructor
+    · rintro rfl; exact ⟨exUser, rfl, rfl⟩
+    · rintro ⟨u, hu, _⟩; exact ((lu n u).mp hu).1
+  · intro y hy ha
+    rcases (mc y).mp hy with rfl | rfl
+    · simp [exConn1] at ha
+    · exact ⟨rfl, rfl, rfl⟩
+  · intro n u h hk; obtain ⟨rfl, rfl⟩ := (lu n u).mp h
+    simp [exUser] at hk
+
+theorem exWorld_inv : Inv exWorld :=
+  { toInvCore := exWorld_invCore
+    settled := by
+      intro y hy
+      have : y = exConn1 ∨ y = exConn2 := by simpa [exWorld] using hy
+      rcases this with rfl | rfl <;> exact ⟨rfl, rfl⟩
+    notKilled := by
+      intro n u h
+      have : (n, u) ∈ exWorld.users := Map.mem_of_lookup h
+      have : (n, u) = (str "a", exUser) := by simpa [exWorld] using this
+      cases this; rfl }
+
+end Irc.Tear
